@@ -1,8 +1,15 @@
 """Property -> rules.  Each property check decides only the structural clauses
 listed in `clauses`; `undecided` names what is out of this family's reach."""
+from . import rules_axis as A
 from . import rules_bound as B
-from . import rules_order as O
+from . import rules_dtype as D
 from . import rules_exc as X
+from . import rules_order as O
+from . import rules_sib as SB
+from . import rules_spec as SP
+from . import rules_struct as S
+from . import rules_tile as T
+from . import rules_orient as OR
 
 
 class Spec:
@@ -26,6 +33,14 @@ class Spec:
 
 PROPS = {}
 
+COMMON = [
+    "CPython's ast module parses the package as the interpreter would",
+    "no monkey-patching / getattr-based dispatch in the analysed paths",
+    "frozen tables printed in DESIGN.md (role-name conventions, array "
+    "layouts, library effect table, exception hierarchy, format "
+    "specifications) are correct",
+]
+
 
 def prop(pid, title, technique, clauses, undecided, assumptions=()):
     def deco(fn):
@@ -36,15 +51,242 @@ def prop(pid, title, technique, clauses, undecided, assumptions=()):
                 + ". It does NOT establish the behavioural property itself; "
                 "undecided (value-level) clauses: " + "; ".join(undecided) + ".")
         PROPS[pid] = Spec(pid, title, technique, text, clauses, undecided,
-                          list(assumptions), fn)
+                          COMMON + list(assumptions), fn)
         return fn
     return deco
 
 
-COMMON_ASSUME = [
-    "CPython's ast module parses the package as the interpreter would",
-    "no monkey-patching / getattr-based dispatch in the analysed paths",
-]
+UNITS_INFO = [("volume_reader", "nibabel_image_to_info", "vs", 1e6),
+              ("volume_reader", "nibabel_image_to_info", "affine", 1e6),
+              ("volume_reader", "nibabel_image_to_precomputed", "resolution",
+               1e-6)]
+
+
+# ---------------------------------------------------------------------
+@prop("C01", "Volume conversion preserves every voxel of the input image",
+      "tiling-template matching on normalised index arithmetic, axis-role "
+      "typing, CFG dominance, ownership paths, dtype-lattice interpretation",
+      ["the full-resolution write loop tiles [0,size) exactly per axis and "
+       "labels each chunk with its own bounds",
+       "no index, slice, shape, coordinate tuple or file-name pattern on the "
+       "path volume -> chunk -> write_chunk -> validation -> chunk name mixes "
+       "two axes; XYZC -> CZYX is the axis reversal",
+       "write_chunk validates coordinates before storing, encodes then stores",
+       "the value converter rounds / clips / casts correctly for every "
+       "(input, target) dtype pair and is safe on read-only / borrowed chunks",
+       "RGB voxels are split into channels by field, in both conversion "
+       "commands"],
+      ["header slope/intercept and --input-min/max numerics (nibabel proxy "
+       "semantics)", "per-value results of rounding and clipping",
+       "memory-mapped vs full-load equality"],
+      ["NumPy promotion / safe-cast / iinfo tables embedded in rules_dtype"])
+def c01(repo, col):
+    T.tiling_site(repo, col, "volume_reader", "volume_to_precomputed")
+    T.coords_tuple(repo, col, "volume_reader", "volume_to_precomputed")
+    n = A.check_modules(repo, col, ["volume_reader", "precomputed_io",
+                                    "file_accessor"])
+    A.moveaxis_reversal(repo, col)
+    O.validation_dominates_io(repo, col)
+    S.io_pass_through(repo, col)
+    S.cast_before_write(repo, col, [("volume_reader", "volume_to_precomputed")])
+    S.inplace_ownership(repo, col)
+    S.copy_keyword_contract(repo, col)
+    D.converter_lattice(repo, col)
+    S.optional_zero(repo, col)
+    S.rgb_split_idiom(repo, col)
+    col.floor("E-TILE", 12)
+    col.floor("E-AXIS", 45)
+    col.floor("E-DTYPE.pair", 50)
+    col.floor("E-OWN", 8)
+
+
+@prop("C02", "compressed_segmentation output conforms to the Neuroglancer "
+      "format",
+      "format-specification table vs encoder and decoder expressions "
+      "(normalised index polynomials), axis-role typing, CFG dominance",
+      ["every layout constant and index expression of the encoder AND the "
+       "decoder equals the published format (little-endian words, block "
+       "header position 8*(x+gx*(y+gy*z)), 24-bit offset | bits<<24, widths "
+       "{0,1,2,4,8,16,32}, value k at bit (k mod n)*bits, grid = ceil(extent/"
+       "block), offsets in 32-bit words)",
+       "block / grid arithmetic is axis-consistent (block sizes are XYZ, "
+       "arrays ZYX)",
+       "the 24-bit offset field is range-checked before packing"],
+      ["lookup-table contents and sharing", "padding values",
+       "a specification decoder's output on every label distribution"],
+      ["compressed_segmentation format as published in the Neuroglancer "
+       "repository"])
+def c02(repo, col):
+    SP.cseg_layout(repo, col)
+    A.check_modules(repo, col, ["_compressed_segmentation", "chunk_encoding"])
+    O.cseg_field_guard(repo, col)
+    S.io_pass_through(repo, col)
+    col.floor("E-SPEC.cseg", 30)
+    col.floor("E-AXIS", 40)
+
+
+@prop("C03", "Writing then reading a chunk returns the same array for "
+      "lossless encodings",
+      "CFG must-pass-through, guard-semantics of the validator, table "
+      "agreement, axis-role typing",
+      ["coordinate validation dominates every store and fetch",
+       "the validator uses all six components, bounds the lower corner by 0 "
+       "and the size, requires the chunk lattice and max = min(lo+cs, size)",
+       "read_chunk / write_chunk always pass through fetch+decode / "
+       "encode+store; encoders cast to the stored little-endian dtype on "
+       "every path",
+       "data-type tables agree; get_encoder covers every --encoding choice"],
+      ["value round trips of each codec", "JPEG error bound",
+       "interleavings of writes and reads"])
+def c03(repo, col):
+    O.validation_dominates_io(repo, col)
+    B.validator_complete(repo, col)
+    S.io_pass_through(repo, col)
+    SB.data_type_tables(repo, col)
+    A.check_modules(repo, col, ["precomputed_io", "chunk_encoding", "_jpeg"])
+    X.decoded_shape(repo, col)
+    col.floor("E-BOUND.validator", 12)
+    col.floor("E-ORDER", 8)
+    col.floor("E-SIB.tables", 8)
+
+
+@prop("C04", "Sharded output is readable by any reader that follows the "
+      "sharded format",
+      "format-specification table vs writer / reader expressions, CFG "
+      "ordering on the file handle, dataflow of stored payloads",
+      ["shard index entries are '<Q' pairs relative to the end of the index",
+       "the entry of minishard m is placed at slot m",
+       "minishard index rows are (id delta, offset delta, size), uint64, "
+       "transposed on write and addressed as [i], [n+i], [2n+i] on read",
+       "shard file name = lower-case hex padded to ceil(shard_bits/4) + "
+       "'.shard'; shard / minishard numbers are the prescribed bit ranges",
+       "zero placeholder first, shard index written last",
+       "every payload reaching a shard passed the data encoder"],
+      ["strictly increasing ids and non-overlapping byte ranges (products of "
+       "the reorder buffer's run-time state)", "gzip payload validity"],
+      ["sharded v1 format as published in the Neuroglancer repository"])
+def c04(repo, col):
+    SP.sharded_layout(repo, col)
+    SP.routing_bits(repo, col)
+    O.shard_index_last(repo, col)
+    S.minishard_encode_before_park(repo, col)
+    col.floor("E-SPEC.sharded", 18)
+    col.floor("E-ORDER.index-last", 5)
+
+
+@prop("C05", "Sharded storage returns what was stored, whatever the order of "
+      "writes",
+      "protocol-conformance of drop-in classes, attribute def-use across the "
+      "class hierarchy, CFG typestate (flush chain, drain loop), bit-range "
+      "templates",
+      ["every operation applied to the write buffers is explicitly provided "
+       "by both the in-memory and the on-disk implementation (arity included)"
+       "; detached drop-ins are never seeded through the inherited "
+       "constructor",
+       "accessor.close -> every scale -> every shard -> every minishard, "
+       "unconditionally; atexit registration; close() drains the reorder "
+       "buffer with zero-length fillers at the next expected id",
+       "next expected id varies exactly the non-routing bits",
+       "lookup maps consulted on fetch are filled by the same class; unused "
+       "(empty) minishards are skipped by the reader",
+       "no mutable container shared between instances"],
+      ["order-independence and byte-identity across write orders (histories "
+       "of a stateful buffer)", "content of data written by the on-disk "
+       "byte array"])
+def c05(repo, col):
+    sh = ["sharded_base", "sharded_file_accessor", "sharded_http_accessor"]
+    S.protocol_conformance(repo, col)
+    O.flush_chain(repo, col)
+    O.minishard_drain(repo, col)
+    SP.routing_bits(repo, col)
+    S.populated_before_lookup(repo, col, sh)
+    S.shared_mutable_state(repo, col, sh)
+    S.empty_minishard_guard(repo, col)
+    S.minishard_encode_before_park(repo, col)
+    col.floor("E-PROTO", 15)
+    col.floor("E-ORDER", 15)
+    col.floor("E-ATTR.populated", 6)
+
+
+@prop("C06", "Each pyramid level equals the whole previous level downscaled "
+      "once",
+      "octant-table and tiling-template matching, CFG dominance of raising "
+      "guards, axis-role typing",
+      ["the new-grid loop and the old-chunk loader tile their scales exactly",
+       "the eight octant copies exist exactly once and each is consistent: "
+       "high half <=> +1 old-chunk index <=> shape guard on that axis",
+       "raising guards on scale factors and on chunk-size compatibility "
+       "dominate the chunk loop",
+       "levels are processed i -> i+1 over all transitions; sharded output "
+       "is flushed between levels",
+       "no expression mixes two axes"],
+      ["the downscaler's values", "that the scale generator only emits "
+       "compatible scale pairs"])
+def c06(repo, col):
+    T.tiling_site(repo, col, "dyadic_pyramid", "compute_dyadic_downscaling")
+    T.tiling_site(repo, col, "dyadic_pyramid",
+                  "compute_dyadic_downscaling.load_and_downscale_old_chunk",
+                  require_count=False)
+    T.coords_tuple(repo, col, "dyadic_pyramid", "compute_dyadic_downscaling")
+    T.coords_tuple(repo, col, "dyadic_pyramid",
+                   "compute_dyadic_downscaling.load_and_downscale_old_chunk")
+    T.octants(repo, col)
+    O.pyramid_guards(repo, col)
+    O.level_driver(repo, col)
+    A.check_modules(repo, col, ["dyadic_pyramid", "downscaling"])
+    col.floor("E-TILE", 30)
+    col.floor("E-AXIS", 100)
+    col.floor("E-ORDER", 7)
+
+
+@prop("C07", "Downscalers compute the documented block statistic exactly",
+      "dtype-lattice interpretation of the accumulator and converter, "
+      "template matching, axis-role typing",
+      ["the averaging accumulator is wide enough for the exact sum of an "
+       "8-voxel block of every Neuroglancer type and the result returns "
+       "through the round-half-even / saturating converter",
+       "majority = labels[argmax(counts)] of np.unique (ties -> smallest "
+       "label); striding = first voxel; unsupported factors raise",
+       "the outside value is tested with `is None` (0 is a valid value)",
+       "output shape arithmetic and strides use each axis' own factor"],
+      ["the means themselves", "padding values at borders"],
+      ["NumPy promotion tables embedded in rules_dtype",
+       "np.unique returns sorted labels; np.argmax returns the first maximum"])
+def c07(repo, col):
+    D.averaging_accumulator(repo, col)
+    # the averaged float64 values go back through the converter
+    D.converter_lattice(repo, col, in_types=["f8", "f4"])
+    S.downscaler_templates(repo, col)
+    S.optional_zero(repo, col)
+    A.check_modules(repo, col, ["downscaling"])
+    col.floor("E-DTYPE", 15)
+    col.floor("E-AXIS", 20)
+
+
+@prop("C09", "Chunk identifiers and shard routing follow the specification "
+      "for every grid",
+      "guard semantics (strictness), bit-range templates, loop-shape "
+      "template",
+      ["grid coordinates are rejected unless 0 <= coord < grid size "
+       "(strict) and lower corners unless multiples of the chunk size",
+       "masks cover the prescribed low bits; shard / minishard numbers are "
+       "the prescribed ranges of the pre-shifted id",
+       "Morton loop: bit index outer, x,y,z inner, axis contributes bit i "
+       "only while 2**i < grid size",
+       "shard file name = hex padded to ceil(shard_bits/4)"],
+      ["injectivity over all grids (follows from the loop shape, not "
+       "separately proved)", "NumPy uint64 shift semantics for widths >= 64"],
+      ["NumPy defines uint64 shifts by >= 64 as 0"])
+def c09(repo, col):
+    B.strict_morton_bound(repo, col)
+    B.morton_nonneg(repo, col)
+    B.cmc_lattice(repo, col)
+    SP.routing_bits(repo, col)
+    SP.morton_loop(repo, col)
+    SP.sharded_layout(repo, col, parts=("name",))
+    A.check_modules(repo, col, ["sharded_base"])
+    col.floor("E-BOUND", 6)
+    col.floor("E-SPEC", 20)
 
 
 @prop("C10", "Decoders never misbehave on malformed chunk data",
@@ -61,18 +303,253 @@ COMMON_ASSUME = [
        "the requested (C, Z, Y, X) shape"],
       ["valid data is never rejected", "sufficiency of the arithmetic inside "
        "each length guard", "shape agreement of array slice stores"],
-      COMMON_ASSUME + [
-          "library effect table: struct.unpack*/struct.error, "
-          "numpy.frombuffer/ValueError, reshape/ValueError, "
-          "array[index]/IndexError, //,%/ZeroDivisionError, "
-          "PIL.Image.open/Exception, numpy.asarray(PIL image)/OSError,"
-          "ValueError,SyntaxError,DecompressionBombError",
-          "slicing, len, min/max, integer arithmetic, io.BytesIO, numpy.empty "
-          "with trusted shape are total",
-          "x[:n] of an array with at least n elements has exactly n elements",
-      ])
+      ["library effect table: struct.unpack*/struct.error, "
+       "numpy.frombuffer/ValueError, reshape/ValueError, "
+       "array[index]/IndexError, //,%/ZeroDivisionError, "
+       "PIL.Image.open/Exception, numpy.asarray(PIL image)/OSError,"
+       "ValueError,SyntaxError,DecompressionBombError",
+       "slicing, len, min/max, integer arithmetic, io.BytesIO, numpy.empty "
+       "with trusted shape are total",
+       "x[:n] of an array with at least n elements has exactly n elements"])
 def c10(repo, col):
-    n = X.decoder_scope(repo, col, "chunks")
+    X.decoder_scope(repo, col, "chunks")
     X.decoded_shape(repo, col)
     col.floor("E-EXC.A", 25)
     col.floor("E-EXC.shape", 3)
+
+
+@prop("C11", "Data-type conversion rounds to nearest and saturates, never "
+      "wraps",
+      "exhaustive interpretation of the converter's source over the finite "
+      "NumPy dtype lattice (50 pairs); path-sensitive ownership analysis",
+      ["for every (input, Neuroglancer target) pair: rounding when a float "
+       "meets an integer target, clipping when the input range exceeds the "
+       "target's, bounds = target limits and exactly representable in the "
+       "work type, work type holds every input value, final cast",
+       "in-place operations only on an owned copy or a buffer checked "
+       "writeable; never on the caller's array when it must be preserved",
+       "np.array(copy=...) is never given a value that can be False"],
+      ["behaviour on individual half-integers (np.rint is documented "
+       "half-to-even)", "strided inputs"],
+      ["NumPy promotion / safe-cast / iinfo tables embedded in rules_dtype"])
+def c11(repo, col):
+    D.converter_lattice(repo, col)
+    S.inplace_ownership(repo, col)
+    S.copy_keyword_contract(repo, col)
+    col.floor("E-DTYPE.pair", 50)
+    col.floor("E-OWN", 8)
+
+
+@prop("C12", "File storage returns the latest stored bytes under every "
+      "layout option",
+      "sibling agreement of accessor implementations, CFG dominance of "
+      "confinement guards, attribute def-use",
+      ["a relative-path confinement check on the joined path dominates every "
+       "file-system access of file_exists / fetch_file / store_file in both "
+       "local accessors",
+       "every write-open depends on `overwrite` (or an existence check "
+       "dominates); the refusal covers both spellings of a name",
+       ".gz names are <name> + '.gz', opened with gzip.open and only those",
+       "read methods do not depend on the write configuration and probe "
+       "every pattern / suffix a writer can produce",
+       "chunk-name patterns are axis-consistent; options reach FileAccessor"],
+      ["last-write-wins over operation histories", "gzip stream validity"])
+def c12(repo, col):
+    SB.confinement(repo, col)
+    SB.overwrite_and_gzip(repo, col)
+    S.read_config_independence(repo, col)
+    SB.accessor_options_plumbing(repo, col)
+    A.check_modules(repo, col, ["file_accessor", "http_accessor"])
+    col.floor("E-SIB", 25)
+    col.floor("E-ATTR", 8)
+
+
+@prop("C13", "Re-encoding a dataset preserves its voxels exactly for "
+      "lossless targets",
+      "tiling-template matching, dataflow of the conversion loop, who-may-"
+      "call on the source, ownership analysis, CFG typestate of the flush",
+      ["the conversion loop tiles every destination scale exactly and reads "
+       "and writes each chunk under the same key and coordinates",
+       "each written chunk derives from transformer(read_chunk(...)); the "
+       "source is only read",
+       "the converter never writes in place into the decoded (read-only) "
+       "buffer",
+       "a sharded destination is flushed: atexit registration and complete "
+       "flush chain"],
+      ["decoded equality of source and destination", "remote sources"])
+def c13(repo, col):
+    T.tiling_site(repo, col, "scripts.convert_chunks",
+                  "convert_chunks_for_scale")
+    T.coords_tuple(repo, col, "scripts.convert_chunks",
+                   "convert_chunks_for_scale")
+    A.check_modules(repo, col, ["scripts.convert_chunks"])
+    S.convert_loop_flow(repo, col)
+    S.cast_before_write(repo, col, [("scripts.convert_chunks",
+                                     "convert_chunks_for_scale")])
+    S.inplace_ownership(repo, col)
+    S.copy_keyword_contract(repo, col)
+    O.flush_chain(repo, col)
+    O.minishard_drain(repo, col)
+    col.floor("E-TILE", 12)
+    col.floor("E-ORDER", 15)
+
+
+@prop("C14", "Reading over HTTP gives the same bytes as reading the files "
+      "locally",
+      "attribute def-use across the class hierarchy, exception-flow at I/O "
+      "call sites, CFG must-pass-through, sibling agreement of dispatch",
+      ["the map consulted on fetch is filled by the same class; no container "
+       "is shared between accessor instances",
+       "HttpAccessor converts every requests failure incl. raise_for_status "
+       "to DataAccessError; content is returned only after the status check",
+       "Range replies are length-checked on every path; legacy offsets are "
+       "rebased exactly once",
+       "file and http branches decide 'sharded' with one predicate on the "
+       "fetched info; URL pattern shared with flat files"],
+      ["byte equality with local reads", "server behaviours beyond status "
+       "and length"])
+def c14(repo, col):
+    sh = ["sharded_base", "sharded_http_accessor", "http_accessor"]
+    S.populated_before_lookup(repo, col, sh)
+    S.shared_mutable_state(repo, col, sh)
+    SB.accessor_io_errors(repo, col)
+    SB.http_content_after_status(repo, col)
+    SB.dispatch_agreement(repo, col)
+    S.empty_minishard_guard(repo, col)
+    A.check_modules(repo, col, ["http_accessor"])
+    col.floor("E-EXC.B", 25)
+    col.floor("E-SIB.dispatch", 10)
+
+
+@prop("C15", "Slice stacks are assembled with the requested anatomical "
+      "orientation",
+      "exhaustive evaluation of literal tables and of the axis-label algebra "
+      "of the flip/moveaxis statements over all 48 codes; tiling templates; "
+      "negative-step slice rule",
+      ["orientation tables equal the RAS+ convention for all 48 codes",
+       "for every code the flips and the axis move place input column / row "
+       "/ slice on the anatomical axis the code names, with the sign it "
+       "names (evaluated symbolically on axis labels, 48/48)",
+       "row / column / slice-group tiling is exact; chunks are labelled "
+       "with their own bounds",
+       "a reversed slice window maps its stop to None when it reaches slice "
+       "0"],
+      ["pixel values", "image loading by scikit-image"],
+      ["numpy.moveaxis / basic slicing semantics on axis labels as modelled "
+       "in rules_orient"])
+def c15(repo, col):
+    S.orientation_tables(repo, col)
+    OR.orientation_semantics(repo, col)
+    T.tiling_site(repo, col, "scripts.slices_to_precomputed",
+                  "slices_to_raw_chunks")
+    T.coord_pairs(repo, col, "scripts.slices_to_precomputed",
+                  "slices_to_raw_chunks", "input_coords")
+    B.negative_step_slices(repo, col)
+    A.check_modules(repo, col, ["scripts.slices_to_precomputed"])
+    S.inplace_ownership(repo, col)
+    col.floor("E-TABLE.orientation", 14)
+    col.floor("E-ORIENT", 48)
+    col.floor("E-TILE", 12)
+
+
+@prop("C16", "Generated metadata and transform place the image correctly in "
+      "space",
+      "template matching of the transform arithmetic, literal unit factors",
+      ["mm <-> nm literals are 1e6 / 1e-6",
+       "column k of the transform is affine column k over voxel size k; "
+       "translation in nm; size = shape[:3]; channels = shape[3] or 1",
+       "half-voxel compensation is translation -= R . (0.5 voxel) with the "
+       "matrix on the left"],
+      ["the relation for every affine", "JSON round trip of the compact URL "
+       "form", "adequacy of the guessed data type"])
+def c16(repo, col):
+    S.unit_literals(repo, col, UNITS_INFO)
+    SP.half_voxel(repo, col)
+    col.floor("E-SPEC.transform", 8)
+    col.floor("E-TABLE.units", 3)
+
+
+@prop("C17", "Mesh files follow the formats Neuroglancer reads and survive a "
+      "round trip",
+      "format table vs writer / reader, exception-flow with discharge on the "
+      "reader, guard strictness, path condition of the winding flip",
+      ["writer and reader use '<I' count, '<f' vertices (n,3), '<I' "
+       "triangles (m,3), C order",
+       "every partial operation of the reader on file bytes is discharged; "
+       "only InvalidMeshDataError is raised",
+       "triangle indices must be strictly below the vertex count",
+       "winding is flipped along axis 1 exactly when det(R) < 0",
+       "mm -> nm factor 1e6; fragment link name and JSON shape"],
+      ["VTK grammar conformance", "vertex values after arbitrary affines"])
+def c17(repo, col):
+    SP.mesh_formats(repo, col)
+    X.decoder_scope(repo, col, "mesh")
+    B.strict_mesh_bound(repo, col)
+    S.unit_literals(repo, col, [("scripts.mesh_to_precomputed",
+                                 "mesh_file_to_precomputed", "points", 1e6)])
+    col.floor("E-SPEC.mesh", 18)
+    col.floor("E-EXC.A", 8)
+
+
+@prop("C18", "I/O failures and interrupted writes never yield silently wrong "
+      "data",
+      "exception-flow at every I/O call site of the accessors, handler "
+      "analysis, CFG ordering on the shard file handle",
+      ["every I/O call of FileAccessor / HttpAccessor is inside a try that "
+       "converts all its exceptions (incl. EOFError / zlib.error of gzip "
+       "reads) to DataAccessError",
+       "no handler around I/O in the sharded code swallows or re-labels the "
+       "error; store handlers always raise and never delete the target",
+       "HTTP content is returned only after the status check",
+       "the shard index is written last over a zero placeholder"],
+      ["atomicity of plain chunk files (there is none: detection relies on "
+       "the decoders, C10)", "behaviour under each errno"])
+def c18(repo, col):
+    SB.accessor_io_errors(repo, col)
+    SB.http_content_after_status(repo, col)
+    O.shard_index_last(repo, col)
+    col.floor("E-EXC.B", 30)
+    col.floor("E-ORDER.index-last", 5)
+
+
+@prop("C19", "All-in-one conversion equals the step-by-step pipeline and "
+      "steps are repeatable",
+      "sibling agreement of two call sequences (stage order, parameter "
+      "origins traced to CLI defaults), handler analysis of drivers",
+      ["the all-in-one command runs the stages of the documented step "
+       "sequence in the same order, including the RGB split",
+       "every value-affecting stage parameter is fed from the same-named "
+       "option, or left at a default equal to the other program's",
+       "every error handler of a driver ends in a non-zero return or raise; "
+       "main passes the status on",
+       "chunk writes overwrite by default, file writes refuse; read/write "
+       "always pass through the codec"],
+      ["equality of the two outputs", "idempotence of repeated steps"])
+def c19(repo, col):
+    SB.pipeline_composition(repo, col)
+    S.exit_status(repo, col)
+    SB.overwrite_and_gzip(repo, col)
+    S.io_pass_through(repo, col)
+    scripts = [m.short for m in repo.modules.values()
+               if m.short.startswith("scripts.") and m.short != "scripts"]
+    S.shared_mutable_state(repo, col, scripts + ["volume_reader",
+                                                 "precomputed_io"])
+    col.floor("E-SIB.pipeline", 12)
+    col.floor("E-EXIT", 12)
+
+
+@prop("C20", "Reported statistics match the dataset that is actually "
+      "produced",
+      "tiling-count template shared with the writers, literal tables",
+      ["chunks per axis = ceil(size / chunk_size), total = product, bytes = "
+       "prod(size) * itemsize * channels, totals accumulate from zero on "
+       "each call",
+       "IEC prefixes are consecutive powers of 1024",
+       "no state shared between calls"],
+      ["readable_count's digit / width promise (arithmetic over format())"])
+def c20(repo, col):
+    T.count_formula(repo, col)
+    S.iec_prefixes(repo, col)
+    S.shared_mutable_state(repo, col, ["scripts.scale_stats", "utils"])
+    col.floor("E-TILE.stats", 5)
+    col.floor("E-TABLE.iec", 6)
